@@ -175,7 +175,38 @@ class _Canon(ast.NodeTransformer):
                 return res
         return self.generic_visit(n)
 
+    def visit_Call(self, n: ast.Call):
+        self.generic_visit(n)
+        # `Cls(**{f: getattr(o, f) for f in Cls._FIELDS})` with `_FIELDS` a class-level tuple of names is the call with one keyword per name
+        if len(n.keywords) == 1 and n.keywords[0].arg is None and isinstance(n.keywords[0].value, ast.DictComp) and not n.args:
+            dc = n.keywords[0].value
+            g = dc.generators[0] if len(dc.generators) == 1 else None
+            names = None
+            if g is not None and not g.ifs and isinstance(g.target, ast.Name) and isinstance(g.iter, ast.Attribute) and isinstance(g.iter.value, ast.Name):
+                names = self.__dict__.get("_class_consts", {}).get((g.iter.value.id, g.iter.attr))
+            if names and isinstance(dc.key, ast.Name) and dc.key.id == g.target.id and isinstance(dc.value, ast.Call) and isinstance(dc.value.func, ast.Name) \
+                    and dc.value.func.id == "getattr" and len(dc.value.args) == 2 and isinstance(dc.value.args[1], ast.Name) and dc.value.args[1].id == g.target.id \
+                    and isinstance(dc.value.args[0], ast.Name):
+                obj = dc.value.args[0].id
+                n.keywords = [ast.copy_location(ast.keyword(arg=f, value=ast.copy_location(ast.Attribute(value=ast.copy_location(ast.Name(id=obj, ctx=ast.Load()), n), attr=f,
+                                                                                                       ctx=ast.Load()), n)), n) for f in names]
+        return n
+
     def visit_Expr(self, n: ast.Expr):
+        # `xs.extend(map(f, it))` is `xs.extend(f(v) for v in it)` (one iterable, a plain function reference)
+        c0 = n.value
+        if isinstance(c0, ast.Call) and isinstance(c0.func, ast.Attribute) and c0.func.attr == "extend" and len(c0.args) == 1 and not c0.keywords \
+                and isinstance(c0.args[0], ast.Call) and isinstance(c0.args[0].func, ast.Name) and c0.args[0].func.id == "map" and len(c0.args[0].args) == 2 \
+                and not c0.args[0].keywords and isinstance(c0.args[0].args[0], (ast.Name, ast.Attribute)):
+            v = "_mapped_item"
+            f_, it_ = c0.args[0].args
+            gen = ast.GeneratorExp(elt=ast.Call(func=f_, args=[ast.Name(id=v, ctx=ast.Load())], keywords=[]),
+                                   generators=[ast.comprehension(target=ast.Name(id=v, ctx=ast.Store()), iter=it_, ifs=[], is_async=0)])
+            c0.args = [gen]
+            for x in ast.walk(gen):
+                if isinstance(x, (ast.expr,)) and not hasattr(x, "lineno"):
+                    ast.copy_location(x, n)
+            ast.fix_missing_locations(n)
         # `xs.extend(f(v) for v in it if c)`  ->  `for v in it: if c: xs.append(f(v))`   (a mapping or a filter; the plain copy `[v for v in it]` is left alone)
         c = n.value
         if isinstance(c, ast.Call) and isinstance(c.func, ast.Attribute) and c.func.attr == "extend" and len(c.args) == 1 and not c.keywords \
@@ -469,6 +500,13 @@ class _Canon(ast.NodeTransformer):
         self._props = {f.name for f in ast.walk(n) if isinstance(f, ast.FunctionDef)
                        and any((isinstance(d, ast.Name) and d.id in ("property", "cached_property")) or (isinstance(d, ast.Attribute) and d.attr in ("setter", "cached_property"))
                                for d in f.decorator_list)}
+        self._class_consts = {}
+        for c in ast.walk(n):
+            if isinstance(c, ast.ClassDef):
+                for st in c.body:
+                    if isinstance(st, ast.Assign) and len(st.targets) == 1 and isinstance(st.targets[0], ast.Name) and isinstance(st.value, (ast.Tuple, ast.List)) \
+                            and st.value.elts and all(isinstance(e, ast.Constant) and isinstance(e.value, str) and e.value.isidentifier() for e in st.value.elts):
+                        self._class_consts[(c.name, st.targets[0].id)] = [e.value for e in st.value.elts]
         self._methods = {f.name for c in ast.walk(n) if isinstance(c, ast.ClassDef) for f in c.body if isinstance(f, ast.FunctionDef)
                          and not f.decorator_list} - self._props - self._stored_attrs
         return self.generic_visit(n)
